@@ -329,6 +329,7 @@ def worker_main(args):
             agg[key][k] = agg[key].get(k, 0) + v
 
     r = w
+    history = []   # scripts executed earlier in THIS process (a library with process-wide state makes them matter)
     while r < args["nruns"]:
         if time.monotonic() > deadline:
             agg["truncated"] = True
@@ -391,10 +392,14 @@ def worker_main(args):
                     path = os.path.join(REPLAYS, f"{prop}-{seed}.json")
                     with open(path, "w") as f:
                         json.dump(best, f, indent=1, sort_keys=True)
+                    hpath = path + ".history"
+                    with open(hpath, "w") as f:
+                        json.dump(history[-400:], f)
                     agg["violations"].append(
                         {
                             "seed": seed,
                             "path": path,
+                            "history": hpath,
                             "violation": final["violation"],
                             "original": v,
                             "hashseed": hashseed,
@@ -409,6 +414,9 @@ def worker_main(args):
                     agg["stopped_after_timeout"] = True
                     r = args["nruns"]
                     break
+        history.extend(scripts)
+        if len(history) > 400:
+            del history[:-400]
         agg["runs"] += 1
         r += W
     faulthandler.cancel_dump_traceback_later()
@@ -439,6 +447,13 @@ def replay_file(path, prop=None, quiet=False):
         raise SystemExit(p.returncode)
     engine = get_engine(prop or script["prop"])
     warmup(engine)
+    # what ran earlier in the process that found the violation (only recorded when the script alone does not
+    # reproduce: the library keeps state across runs somewhere the harness cannot reset)
+    for earlier in script.get("process_history", []):
+        try:
+            execute_script(engine, earlier)
+        except Exception:
+            pass
     res = execute_script(engine, script)
     exp = script.get("expect")
     if res["violation"] is None:
@@ -605,9 +620,38 @@ def run_batch(prop, tier, nruns=None, budget_s=None, workers=None, profile=None,
             [sys.executable, os.path.join(VERIF, "run_check.py"), prop, "--replay", v["path"], "--quiet"],
             env=env, capture_output=True, text=True, timeout=600,
         )
+        needs_history = None
         if "REPLAY reproduced" not in p.stdout:
-            print(f"HARNESS-ERROR replay of {v['path']} diverged:\n{p.stdout[-2000:]}\n{p.stderr[-2000:]}")
-            return 2, None
+            # the script alone does not reproduce in a fresh interpreter.  Either the harness is not deterministic
+            # (an error), or the library carries state from one run to the next inside a process: replay with the
+            # runs that preceded it in the worker, shortest suffix first
+            hist = []
+            if v.get("history") and os.path.exists(v["history"]):
+                with open(v["history"]) as f:
+                    hist = json.load(f)
+            with open(v["path"]) as f:
+                base = json.load(f)
+            k = 1
+            while hist and needs_history is None:
+                k = min(k, len(hist))
+                cand = dict(base, process_history=hist[-k:])
+                with open(v["path"], "w") as f:
+                    json.dump(cand, f, indent=1, sort_keys=True)
+                p2 = subprocess.run(
+                    [sys.executable, os.path.join(VERIF, "run_check.py"), prop, "--replay", v["path"], "--quiet"],
+                    env=env, capture_output=True, text=True, timeout=1800,
+                )
+                if "REPLAY reproduced" in p2.stdout:
+                    needs_history = k
+                elif k == len(hist):
+                    break
+                else:
+                    k *= 2
+            if needs_history is None:
+                with open(v["path"], "w") as f:
+                    json.dump(base, f, indent=1, sort_keys=True)
+                print(f"HARNESS-ERROR replay of {v['path']} diverged:\n{p.stdout[-2000:]}\n{p.stderr[-2000:]}")
+                return 2, None
         with open(v["path"]) as f:
             script = json.load(f)
         k = match_known(known, prop, v["violation"], script)
@@ -626,6 +670,9 @@ def run_batch(prop, tier, nruns=None, budget_s=None, workers=None, profile=None,
         lines.append(f"  oracle={v['violation']['oracle']} class={v['violation']['cls']} "
                      f"op={v['violation']['op']} seed={v['seed']} hashseed={v['hashseed']}")
         lines.append(f"  detail: {v['violation']['detail'][:400]}")
+        if needs_history:
+            lines.append(f"  note: reproduces only after the {needs_history} run(s) that preceded it in the same process "
+                         f"(recorded in the replay file as process_history): the library keeps state across runs")
     for line in lines:
         print(line, flush=True)
 
